@@ -139,3 +139,11 @@ impl ModelChecker {
         Ok(total_stats)
     }
 }
+
+#[cfg(anysystem_verif)]
+impl ModelChecker {
+    /// Verification hook: the underlying system.
+    pub fn verif_system(&mut self) -> &mut McSystem {
+        &mut self.system
+    }
+}
